@@ -68,6 +68,8 @@ func (sfv *seqFunVars) setKeysItem(f slip.Object, s *slip.Scope, args slip.List,
 			}
 			if num, ok := args[pos+1].(slip.Fixnum); ok {
 				sfv.count = int(num)
+			} else if args[pos+1] == nil {
+				sfv.count = math.MaxInt
 			} else {
 				slip.TypePanic(s, depth, "count", args[pos+1], "fixnum")
 			}
@@ -124,6 +126,8 @@ func (sfv *seqFunVars) setKeysIf(f slip.Object, s *slip.Scope, args slip.List, d
 			}
 			if num, ok := args[pos+1].(slip.Fixnum); ok {
 				sfv.count = int(num)
+			} else if args[pos+1] == nil {
+				sfv.count = math.MaxInt
 			} else {
 				slip.TypePanic(s, depth, "count", args[pos+1], "fixnum")
 			}
